@@ -488,7 +488,7 @@ Proof.
   intros H H0 Hi Ht. cbv zeta. apply with_payload_ok in H as (p & S & ->).
   destruct (gs_loop_spec _ _ _ GL) as [Ha Fh]. cbn [app] in Ha. subst addrs.
   destruct (gs_loop_distinct _ _ _ GL (NoDup_nil _) (fun x => x)) as [ND NZ].
-  rewrite Z.mod_small in S by lia.
+  unfold go_adm_new_index in S. rewrite Z.mod_small in S by lia.
   destruct (create_envelope c e p) as [E P]. rewrite P.
   assert (Ln : (0 < length (map hex_to_address guardians) <= 255)%nat) by (rewrite map_length; lia).
   destruct (parse_guardian_set (map hex_to_address guardians) (e_gsi e + 1) p (e_tchain e) chainId (e_gsi e) (map_length20 guardians) Ln
